@@ -382,6 +382,66 @@ theorem db_tables_in_order (isM1 : α → Bool) (cat : List (Src α)) :
   cases h1 : ofClass Cls.component cat <;> cases h2 : ofClass Cls.island cat <;>
     cases h3 : ofClass Cls.simple cat <;> simp [dbTable]
 
+/-! #### histories: a second write to the same name -/
+
+/-- **db_depends_on_last_write_only**: whatever database file was there before (any tables, from
+    any earlier catalogue), after `writeDB` the file holds exactly the tables of the catalogue just
+    written — in particular no table of a source type that does not occur in it. -/
+theorem db_depends_on_last_write_only (isM1 : α → Bool) (old : Option (List (DbTable α))) (cat : List (Src α)) :
+    writeDBFile isM1 old cat = dbTables isM1 cat := by
+  unfold writeDBFile
+  cases old <;> simp
+
+/-- for every history of writes to the same name, the database is that of the last catalogue alone -/
+theorem db_history_last_only (isM1 : α → Bool) (old : Option (List (DbTable α))) (hist : List (List (Src α)))
+    (last : List (Src α)) :
+    writeDBHistory isM1 old (hist ++ [last]) = some (dbTables isM1 last) := by
+  induction hist generalizing old with
+  | nil => simp [writeDBHistory, db_depends_on_last_write_only]
+  | cons c cs ih => simp only [List.cons_append, writeDBHistory]; exact ih _
+
+/-- after any history the tables present are those of the types occurring in the last catalogue -/
+theorem db_history_tables (isM1 : α → Bool) (old : Option (List (DbTable α))) (hist : List (List (Src α)))
+    (last : List (Src α)) :
+    (writeDBHistory isM1 old (hist ++ [last])).map (fun ts => ts.map (fun t => t.name)) =
+      some (([Kind.comp, Kind.isle, Kind.simp].filter (fun k => !(sourcesOf k last).isEmpty)).map Kind.tableName) := by
+  rw [db_history_last_only, Option.map_some, db_tables_in_order]
+
+/-- negation witness for the "update in place" variant (keep the file, drop only the tables that
+    are rewritten): an islands table from the first write survives a second write without islands -/
+theorem in_place_keeps_stale_table :
+    let isle : Src Int := ⟨.island, []⟩
+    let comp : Src Int := ⟨.component, []⟩
+    let w1 := writeDBInPlace (fun x => x == -1) none [comp, isle]
+    let w2 := writeDBInPlace (fun x => x == -1) (some w1) [comp]
+    w2.map (fun t => t.name) = ["islands".toList, "components".toList] ∧
+    (writeDBFile (fun x => x == -1) (some w1) [comp]).map (fun t => t.name) = ["components".toList] := by
+  decide
+
+/-- per-type files: a write leaves every file it does not name untouched (a stale `_isle` file of
+    an earlier write is not an output of a write without islands) -/
+theorem fsWrite_other_files_untouched (fs : List (Str × Table α)) (outs : List (FileOut α)) (n : Str)
+    (h : ∀ f ∈ outs, f.name ≠ n) : (fsWrite fs outs).lookup n = fs.lookup n := by
+  unfold fsWrite
+  induction outs generalizing fs with
+  | nil => rfl
+  | cons f rest ih =>
+    rw [List.foldl_cons, ih _ (fun g hg => h g (List.mem_cons_of_mem _ hg))]
+    have hf : f.name ≠ n := h f List.mem_cons_self
+    have hb : (n == f.name) = false := by simpa using (fun e => hf e.symm)
+    simp only [List.lookup_cons, hb]
+    induction fs with
+    | nil => rfl
+    | cons e es ihe =>
+      obtain ⟨k, v⟩ := e
+      by_cases hk : k = f.name
+      · have : (n == k) = false := by rw [hk]; exact hb
+        simp [List.filter_cons, hk, List.lookup_cons, this, ihe]
+      · by_cases hn : n = k
+        · subst hn; simp [List.filter_cons, hk, List.lookup_cons]
+        · have : (n == k) = false := by simpa using hn
+          simp [List.filter_cons, hk, List.lookup_cons, this, ihe]
+
 /-! ### (5) reading back: `table_to_source_list` inverts the table construction -/
 
 theorem toSources_length (names : List Str) (dflt : Src α) (t : Table α) :
